@@ -601,6 +601,12 @@ func runC10(c *Ctx) {
 			vspy := &mon.SpyVerifier{Alg: k.Alg}
 			cs := &cose.Countersignature{Headers: cose.Headers{Protected: cose.ProtectedHeader{int64(1): k.Alg}}}
 			cs2 := &cose.Countersignature{Headers: cose.Headers{Protected: cose.ProtectedHeader{int64(1): k.Alg}}, Signature: sigOK}
+			holderBefore := mon.DeepHashValue(cs.Headers)
+			defer func(csx *cose.Countersignature, name string) {
+				if mon.DeepHashValue(csx.Headers) != holderBefore {
+					rec.Violate("holder-modified", name, "a refused countersigning attempt changed the countersignature holder's headers", in)
+				}
+			}(cs, rf.name)
 			if guard(rec, "refusal", in, func() {
 				e1 = cs.Sign(gen.Entropy, spy, rf.parent, ext)
 				e2 = cs2.Verify(vspy, rf.parent, ext)
